@@ -588,9 +588,42 @@ class Run:
             self.interposer.yield_hook = sched.yield_point
         CoopLock.current_sched = sched
         log0 = len(self.interposer.log) if self.interposer else 0
+        # the instant at which a call claims its key (start_building_file / start_subbuild when it executes,
+        # use_cached_operation when it is served from the cache) orders the calls of the threads; it is taken
+        # from wrappers around those three methods of the library's Cache (a marker event, removed below)
+        import file_builder.cache as _fbc
+        patched = []
+        claiming = {}
+
+        def release_hook():
+            # the marker is written when the method lets go of a lock, i.e. before any other thread can run
+            me = threading.get_ident()
+            if claiming.get(me):
+                self.ev(ev='_claim')
+        sched.release_hook = release_hook
+        for mname in ('start_building_file', 'start_subbuild', 'use_cached_operation'):
+            orig = getattr(_fbc.Cache, mname, None)
+            if orig is None:
+                continue
+
+            def wrap(orig=orig):
+                def w(cache_self, *a, **k):
+                    me = threading.get_ident()
+                    if me not in self.sinks:
+                        return orig(cache_self, *a, **k)
+                    claiming[me] = claiming.get(me, 0) + 1
+                    try:
+                        return orig(cache_self, *a, **k)
+                    finally:
+                        claiming[me] -= 1
+                return w
+            setattr(_fbc.Cache, mname, wrap())
+            patched.append((mname, orig))
         try:
             errors = sched.run([mk(i, b) for i, b in enumerate(st['branches'])])
         finally:
+            for mname, orig in patched:
+                setattr(_fbc.Cache, mname, orig)
             CoopLock.current_sched = None
             if self.interposer:
                 self.interposer.yield_hook = old_hook
@@ -614,15 +647,18 @@ class Run:
             ends = [e for e in block if e['ev'] in ('bf_end', 'sb_end')]
             last = ends[-1] if ends else None
             inv = [e for e in block if e['ev'] == 'invoke']
+            claims = [e for e in block if e['ev'] == '_claim']
             rejected = bool(last is not None and not last['inv'] and last['out'] == 'raised'
                             and last.get('err') == 'RuntimeError')
-            t = inv[0]['_g'] if inv else (last['_g'] if last else (block[0]['_g'] if block else 0))
+            t = claims[0]['_g'] if claims else inv[0]['_g'] if inv else (
+                last['_g'] if last else (block[0]['_g'] if block else 0))
             return (1 if rejected else 0, t)
         order = sorted(range(len(blocks)), key=lambda i: key(blocks[i]))
         for i in order:
             for e in blocks[i]:
                 e.pop('_g', None)
-                self.events.append(e)
+                if e['ev'] != '_claim':
+                    self.events.append(e)
         self._note_locks(sched)
         self.par_info.append({'yields': list(sched.yields), 'switches': sched.switches, 'deadlock': sched.deadlock,
                               'errors': [repr(x) for x in errors if x is not None], 'order': order})
